@@ -190,7 +190,7 @@ func runC11(c *core.Ctx) {
 					return false
 				}
 				// basicnode style: assembler.state = <the constant Finish stores>
-				if fa, ok := st.Addr.(*ssa.FieldAddr); ok && strings.HasSuffix(core.FieldName(fa), ".state") {
+				if fa, ok := st.Addr.(*ssa.FieldAddr); ok && isStateField(fa) {
 					return fin != "" && cv.ExactString() == fin
 				}
 				// generated style: *assembler.m = schema.Maybe_Value (the slot's completion marker)
@@ -498,7 +498,7 @@ func finishedConst(p *core.Program, im core.Impl) string {
 	for _, g := range append([]*ssa.Function{fn}, staticCalleesIn(fn, 2)...) {
 		core.Instrs(g, func(in ssa.Instruction) {
 			if st, ok := in.(*ssa.Store); ok {
-				if fa, ok := st.Addr.(*ssa.FieldAddr); ok && strings.HasSuffix(core.FieldName(fa), ".state") {
+				if fa, ok := st.Addr.(*ssa.FieldAddr); ok && isStateField(fa) {
 					if cv := core.ConstVal(st.Val); cv != nil {
 						out = cv.ExactString()
 					}
@@ -525,7 +525,7 @@ func reflectTargetFresh(ci ssa.CallInstruction) bool {
 				foreign = true
 			}
 		case *ssa.FieldAddr:
-			if strings.HasSuffix(core.FieldName(x), ".val") {
+			if isReflectValueField(x) {
 				foreign = true
 			}
 		}
